@@ -11,6 +11,7 @@ import (
 	"net/http"
 	"path"
 	"runtime/debug"
+	"sync"
 	"text/template"
 	"time"
 
@@ -138,7 +139,27 @@ func (as *AppServer) Handler() (*http.ServeMux, error) {
 		}
 	}
 
-	mux.HandleFunc("/schema", as.SchemaEndpoint)
+	// net/http runs every request on its own goroutine, and the editor sends
+	// its requests without waiting for the previous answer. The graph is not
+	// safe for that: two requests at once ended in "fatal error: concurrent map
+	// iteration and map write" (create node while another request saves) or in
+	// a lost edit. Everything that reads or edits the graph takes turns.
+	var graphLock sync.Mutex
+	oneAtATime := func(h http.Handler) http.Handler {
+		return http.HandlerFunc(func(w http.ResponseWriter, r *http.Request) {
+			graphLock.Lock()
+			defer graphLock.Unlock()
+			h.ServeHTTP(w, r)
+		})
+	}
+	handle := func(pattern string, h http.Handler) {
+		mux.Handle(pattern, oneAtATime(h))
+	}
+	handleFunc := func(pattern string, h http.HandlerFunc) {
+		mux.Handle(pattern, oneAtATime(h))
+	}
+
+	handleFunc("/schema", as.SchemaEndpoint)
 	mux.Handle("/scene", endpoint.Handler{
 		Methods: map[string]endpoint.Method{
 			http.MethodGet: endpoint.ResponseMethod[*schema.WebScene]{
@@ -149,19 +170,19 @@ func (as *AppServer) Handler() (*http.ServeMux, error) {
 			},
 		},
 	})
-	mux.HandleFunc("/zip", as.ZipEndpoint)
-	mux.Handle("/node", nodeEndpoint(as.app.graphInstance, graphSaver))
-	mux.Handle("/node/connection", nodeConnectionEndpoint(as.app.graphInstance, graphSaver))
-	mux.Handle("/parameter/value/", parameterValueEndpoint(as.app.graphInstance, graphSaver))
-	mux.Handle("/parameter/name/", parameterNameEndpoint(as.app.graphInstance, graphSaver))
-	mux.Handle("/parameter/description/", parameterDescriptionEndpoint(as.app.graphInstance, graphSaver))
-	mux.Handle("/graph", graphEndpoint(as.app, graphSaver))
-	mux.Handle("/graph/metadata/", graphMetadataEndpoint(as.app.graphInstance, graphSaver))
-	mux.HandleFunc("/started", as.StartedEndpoint)
-	mux.HandleFunc("/mermaid", as.MermaidEndpoint)
-	mux.HandleFunc("/swagger", as.SwaggerEndpoint)
-	mux.HandleFunc("/producer/value/", as.ProducerEndpoint)
-	mux.Handle("/producer/name/", producerNameEndpoint(as.app.graphInstance, graphSaver))
+	handleFunc("/zip", as.ZipEndpoint)
+	handle("/node", nodeEndpoint(as.app.graphInstance, graphSaver))
+	handle("/node/connection", nodeConnectionEndpoint(as.app.graphInstance, graphSaver))
+	handle("/parameter/value/", parameterValueEndpoint(as.app.graphInstance, graphSaver))
+	handle("/parameter/name/", parameterNameEndpoint(as.app.graphInstance, graphSaver))
+	handle("/parameter/description/", parameterDescriptionEndpoint(as.app.graphInstance, graphSaver))
+	handle("/graph", graphEndpoint(as.app, graphSaver))
+	handle("/graph/metadata/", graphMetadataEndpoint(as.app.graphInstance, graphSaver))
+	handleFunc("/started", as.StartedEndpoint)
+	handleFunc("/mermaid", as.MermaidEndpoint)
+	handleFunc("/swagger", as.SwaggerEndpoint)
+	handleFunc("/producer/value/", as.ProducerEndpoint)
+	handle("/producer/name/", producerNameEndpoint(as.app.graphInstance, graphSaver))
 
 	hub := room.NewHub(as.webscene, as.app.graphInstance)
 	go hub.Run()
